@@ -18,8 +18,11 @@ import (
 	"fmt"
 	"math/big"
 	"os"
+	"os/exec"
+	"path/filepath"
 	"strconv"
 	"strings"
+	"time"
 
 	"github.com/ontio/ontology/account"
 	"github.com/ontio/ontology/common"
@@ -358,7 +361,7 @@ func gen(r *hx.Rand, tier string, i int) string {
 		p := w.prepare(s)
 		vmRan, given := mirrorGiven(s, len(p.code))
 		if s.kind == "loop" && vmRan && given > loopGasCap {
-			continue // would spin for ever (see props/C05.json: gas underflow observation); account stays funded, harmless
+			continue // would spin for ever (finding gaslimit-underflow: exercised by the time-bounded `U` corpus line); account stays funded, harmless
 		}
 		if (s.kind == "nop" || s.kind == "throw") && s.pad == 0 && false {
 			continue
@@ -386,7 +389,10 @@ func parse(line string) (scen, oracle, bool) {
 	return s, o, true
 }
 
-func exec(line string) (res hx.Result) {
+func execLine(line string) (res hx.Result) {
+	if strings.HasPrefix(line, "U ") {
+		return execUnbounded(line)
+	}
 	s, o, ok := parse(line)
 	if !ok {
 		return hx.Result{Out: "bad-op", Kind: "bad-op"}
@@ -419,7 +425,7 @@ func exec(line string) (res hx.Result) {
 			msg := fmt.Sprint(e)
 			res = hx.Result{Out: "PANIC", Kind: kind + "/panic", Key: line, Fail: "go panic while executing the block: " + msg, Class: "panic"}
 			if strings.Contains(msg, "divide by zero") {
-				res.Class = "tune-gasround-zero-div"
+				res.Class = "tune-gasround-zero-div" // repaired in /repo 5c254519; a reversion shows up under this class
 			}
 		}
 	}()
@@ -496,6 +502,82 @@ func exec(line string) (res hx.Result) {
 	return res
 }
 
+const unboundedWait = 4 * time.Second
+
+// execUnbounded runs a `U` line (endless script in the gas-limit-underflow situation) in a child process with its own
+// ledger and a time bound: executeBlock not returning is the observation UNBOUNDED.
+func execUnbounded(line string) hx.Result {
+	f := strings.Fields(line)
+	if len(f) != 10 {
+		return hx.Result{Out: "bad-op", Kind: "bad-op"}
+	}
+	tmp := filepath.Join(ledgerkit.TmpDir("c05u"), "child")
+	defer os.RemoveAll(filepath.Dir(tmp))
+	cmd := exec.Command(os.Args[0])
+	cmd.Env = append(os.Environ(), "C05_CHILD="+line, "HX_TMP="+tmp)
+	var out strings.Builder
+	cmd.Stdout = &out
+	if err := cmd.Start(); err != nil {
+		panic(err)
+	}
+	done := make(chan error, 1)
+	go func() { done <- cmd.Wait() }()
+	select {
+	case <-done:
+		o := strings.TrimSpace(out.String())
+		if !strings.HasPrefix(o, "st=") {
+			return hx.Result{Out: "CHILD-FAILED " + o, Kind: "U/child-failed", Fail: "child process failed: " + o, Class: "child-failed"}
+		}
+		return hx.Result{Out: o, Kind: "U/returned", Key: line}
+	case <-time.After(unboundedWait):
+		cmd.Process.Kill()
+		<-done
+		return hx.Result{Out: "UNBOUNDED", Kind: "U/unbounded", Key: line, Class: "gaslimit-underflow",
+			Fail: fmt.Sprintf("executeBlock did not return within %s: an endless script was started with ~2^64 gas although gasLimit/balance allow none (availableGasLimit - codeLenGasLimit underflowed)", unboundedWait)}
+	}
+}
+
+// childMain executes one U line on a fresh ledger and prints the result line.
+func childMain(line string) {
+	f := strings.Fields(line)
+	s, _, ok := parse("T " + strings.Join(f[1:9], " ") + " " + f[9] + " 0 0 0 0 0 0 0 0")
+	if !ok {
+		fmt.Println("bad-op")
+		return
+	}
+	w := getWorld()
+	defer func() { w.kit.Close(); os.RemoveAll(w.dir) }()
+	p := w.prepare(s)
+	blk := w.testBlock(p)
+	govBefore, _ := w.kit.OngFine(nutils.GovernanceContractAddress)
+	payerBefore, _ := w.kit.OngFine(p.payer.Address)
+	r, err := w.kit.Exec(blk)
+	if err != nil || len(r.Notify) != 3 {
+		fmt.Println("BLOCKERR", err)
+		return
+	}
+	n := r.Notify[1]
+	payerAfter, govAfter, other := payerBefore, govBefore, 0
+	payerKey, govKey := string(ledgerkit.OngKey(p.payer.Address)), string(ledgerkit.OngKey(nutils.GovernanceContractAddress))
+	preKeys := map[string]bool{string(ledgerkit.OngKey(w.x.Address)): true, string(ledgerkit.OngKey(w.y.Address)): true}
+	r.WriteSet.ForEach(func(key, val []byte) {
+		switch k := string(key); {
+		case k == payerKey:
+			payerAfter = itemBalance(val)
+		case k == govKey:
+			govAfter = itemBalance(val)
+		case preKeys[k]:
+		default:
+			other++
+		}
+	})
+	st := 0
+	if n.State == event.CONTRACT_STATE_SUCCESS {
+		st = 1
+	}
+	fmt.Printf("st=%d gas=%d ev=%d payer=%s govd=%s rest=%d\n", st, n.GasConsumed, len(n.Notify), payerAfter, new(big.Int).Sub(govAfter, govBefore), other)
+}
+
 func itemBalance(raw []byte) *big.Int {
 	if len(raw) == 0 {
 		return new(big.Int)
@@ -509,6 +591,10 @@ func itemBalance(raw []byte) *big.Int {
 }
 
 func main() {
+	if l := os.Getenv("C05_CHILD"); l != "" {
+		childMain(l)
+		return
+	}
 	defer func() {
 		if theWorld != nil {
 			theWorld.kit.Close()
@@ -519,7 +605,7 @@ func main() {
 		ID:   "C05",
 		Rule: "one NeoVM/native invoke transaction per case, executed by ExecuteBlock+SubmitBlock on a real solo ledger between a preceding and a following transaction; scripts: ok, NOP runs, THROW, endless loop, bad opcode, ONG transfer/approve (with and without a trailing THROW), transfer from a non-signer, ONT transfer without funds, the system commitDpos code; code padded across the 1 KiB fee steps; gas price in {0,1,2,500,2500,random,2^59k (20000*p=0 mod 2^64), 2^63±1, 2^64-1, around 2^64/20000 and 2^64/40000}; gas limit in {0,1,19999..40001, 2^63, 2^64-1, random}; payer balance around 20000p, 40000p, limit*p, with sub-unit fractions; payer not among the signers in 6%. Non-trivial key = (script/branch, state, gas consumed, signer flag, price)",
 		Gen:  gen,
-		Exec: exec,
+		Exec: execLine,
 		N:    map[string]int{"quick": 700, "thorough": 12000},
 	})
 }
